@@ -323,6 +323,29 @@ func (gi *gateInterp) run(p *gatePath, list []ast.Stmt, k func(*gatePath)) {
 		next(p)
 	case *ast.AssignStmt:
 		if len(x.Rhs) == 1 {
+			// a local naming a calldata word / gate field (wire id or coefficient id), e.g. out := inst.Calldata[2]
+			if id, ok := x.Lhs[0].(*ast.Ident); ok && len(x.Lhs) == 1 {
+				_, isCD := calldataIndex(gi.info, x.Rhs[0])
+				_, isGF := gateFieldOf(x.Rhs[0])
+				if isCD || isGF {
+					q := p.clone()
+					q.bad = ""
+					w := gi.wireOf(q, x.Rhs[0])
+					c := gi.coefOf(q, x.Rhs[0])
+					if q.bad == "" {
+						if p.wenv == nil {
+							p.wenv = map[string]string{}
+						}
+						if p.cenv == nil {
+							p.cenv = map[string]rat{}
+						}
+						p.wenv[id.Name] = w
+						p.cenv[id.Name] = c
+						next(p)
+						return
+					}
+				}
+			}
 			v := gi.eval(p, x.Rhs[0])
 			if id, ok := x.Lhs[0].(*ast.Ident); ok {
 				p.env[id.Name] = v
